@@ -3,7 +3,7 @@
 # of /repo and run the given checks with the given checker binary
 export GOFLAGS=-mod=mod GOPROXY=off GOSUMDB=off GOTOOLCHAIN=local
 src=$1; bin=$2; shift 2
-S=$(mktemp -d /tmp/sq.XXXXXX); rsync -a --exclude .git /repo/ $S/repo/; mkdir -p $S/verif/evidence; cp /verif/known_findings.txt $S/verif/
+S=$(mktemp -d /tmp/sq.XXXXXX); mkdir -p $S/repo && git -C /repo archive HEAD | tar -x -C $S/repo; mkdir -p $S/verif/evidence; cp /verif/known_findings.txt $S/verif/
 if [ -d "$src" ]; then (cd $src && git diff) > $S/p.diff; else cp $src $S/p.diff; fi
 (cd $S/repo && patch -s -p1 < $S/p.diff) || echo "patch failed"
 for p in "$@"; do echo "-- $p: $($bin -repo $S/repo -verif $S/verif -property $p 2>&1 | grep -E '\[violated\]|SUMMARY' | cut -c1-${COLS:-240} | sed "s#$S/repo/##g" | head -${LINES_MAX:-4})"; done
